@@ -304,6 +304,32 @@ func fieldValuesOfAllocated(v ssa.Value, field string) []ssa.Value {
 // scheme's Verify returned true, and it verifies the given signature over createPreSig(purpose, msg).
 func ruleVerifyInside(r *core.Report, ruleID string) {
 	p := r.P
+	// the primitive underneath: x509's generic Verifier returns the scheme's verdict unchanged (no
+	// deferred function rewrites the result, nothing turns a false or a panic into true)
+	if xv := needFn(r, "f/x509", "verifier.Verify"); xv != nil {
+		okPrim := len(core.Returns(xv)) > 0
+		why := ""
+		for _, ret := range core.Returns(xv) {
+			for _, v := range core.ReturnValues(ret, 0) {
+				if b, isK := core.ConstBool(v); isK && !b {
+					continue
+				}
+				c, _, isCall := core.CallResult(core.Through(v))
+				if cc, direct := core.Through(v).(*ssa.Call); direct {
+					c, isCall = cc, true
+				}
+				if !isCall || !c.Call.IsInvoke() || c.Call.Method.Name() != "Verify" {
+					okPrim = false
+					why = "a return value that is not the scheme's Verify result (or the constant false)"
+				}
+			}
+		}
+		if core.Recovers(xv) {
+			okPrim = false
+			why = "it recovers from panics and returns whatever the named result holds then"
+		}
+		r.Check(okPrim, ruleID, core.FnName(xv), p.Pos(xv.Pos()), "returns exactly what the signature scheme's Verify returned", "x509's Verifier does not return the scheme's verdict unchanged ("+why+"): a signature the scheme rejects can be reported as valid, and every handshake check above it passes")
+	}
 	rih := needFn(r, "p/p2pke", "readInitHello")
 	rrh := needFn(r, "p/p2pke", "readRespHello")
 	rid := needFn(r, "p/p2pke", "readInitDone")
